@@ -80,7 +80,7 @@ fn run_case(rep: &mut Report, solver: Solver, prob: &IvpProblem, cfg: &Cfg, mode
             continue;
         }
         let floor = 64.0 * EPS * (1.0 + norm2(y));
-        let le = (dist2(y, &yr) - floor).max(0.0);
+        let le = nmax(dist2(y, &yr) - floor, 0.0);
         let unit = if solver.is_bdf() { cfg.tol } else { cfg.tol * h };
         let ratio = le / unit;
         worst = worst.max(ratio);
@@ -256,7 +256,13 @@ fn decoupled_case(rep: &mut Report, solver: Solver, rng: &mut Rng) {
     let tol = rng.log10(-10.0, -3.0);
     let dt_max = dtmax_for(solver, prob.lip(), tol, rng.r(0.5, 1.0));
     let t0 = rng.r(-2.0, 2.0);
-    let cfg = Cfg { t0, t1: t0 + dt_max * rng.log10(0.8, 1.8), dt_min: dt_max * rng.log10(-8.0, -6.0), dt_max, tol };
+    // Runge-Kutta solvers, a fifth of the cases: a sizeable minimum step (0.05-0.5 dt_max). Where the
+    // estimator wants less the solve must end in the minimum-step error, and every step it does yield is
+    // held to the bound. (Not for the multistep solvers: their RK4 start-up steps are not error
+    // controlled, and with a large state and a step that cannot shrink a start-up step was 135 x tol h
+    // off on the unchanged tree - the exclusion of the property again, not a defect.)
+    let dt_min = if solver.is_rk() && rng.chance(0.3) { dt_max * rng.r(0.05, 0.5) } else { dt_max * rng.log10(-8.0, -6.0) };
+    let cfg = Cfg { t0, t1: t0 + dt_max * rng.log10(0.5, 1.8), dt_min, dt_max, tol };
     // amplitude: large enough that the estimator limits the step, small enough that rounding does not hide tol x h
     let amp = rng.log10(0.0, 3.5).min(tol * dt_max / (2_000.0 * EPS)).max(1.0) / if what == 1 { (n as f64).sqrt().min(30.0) } else { 1.0 };
     let complex = what == 2 || rng.chance(0.2);
